@@ -13,19 +13,20 @@ Oracle (from the statement, independent of the code under test):
               @namespace rules at the moment of writing, never from the selector parser
   reresolve   parse(serialise(sheet)) has the same mapping, the same number of style rules and every selector resolves to the same pairs
   wellformed  the text of every @namespace rule parses back to one @namespace rule with the same prefix and URI
-  undeclared  a selector using a prefix that is not declared is rejected (nothing is added / changed)
+  undeclared  a selector using a prefix that is not declared is rejected (nothing is added / changed); a selector whose prefixes are all
+              declared is not refused as undeclared (prefixes are case-sensitive)
 """
 import logging
 import xml.dom
 
 URIS = ['urn:a', 'urn:b']
-PREFIXES = ['', 'p', 'q']
+PREFIXES = ['', 'p', 'Q']   # prefixes are case-sensitive: one of them is upper-case
 ANY = '*'
 
 # selector pool: text -> components in document order. ('pre', prefix, name) | ('any', name) | ('none', name) | ('plain', name)
 SEL = {
     'p|e': [('pre', 'p', 'e')],
-    'q|f': [('pre', 'q', 'f')],
+    'Q|f': [('pre', 'Q', 'f')],
     '*|e': [('any', 'e')],
     '|e': [('none', 'e')],
     'e': [('plain', 'e')],
@@ -33,28 +34,30 @@ SEL = {
     '*': [('plain', '*')],
     'e[p|a]': [('plain', 'e'), ('pre', 'p', 'a')],
     'e[a]': [('plain', 'e')],
-    'p|e q|f': [('pre', 'p', 'e'), ('pre', 'q', 'f')],
+    'p|e Q|f': [('pre', 'p', 'e'), ('pre', 'Q', 'f')],
+    '*|e:not(Q|f)': [('any', 'e'), ('pre', 'Q', 'f')],   # the only use of Q may be a type selector inside :not()
 }
-CORE_SEL = ['p|e', 'q|f', '*|e', '|e', 'e']
-OWN = {'p': 'urn:a', 'q': 'urn:b'}   # the private namespace dict of selectors built detached
-OBJ_SEL = ['p|e', 'q|f', 'e[p|a]']
+FULL_SEL = ['p|e', 'Q|f', '*|e', '|e', 'e', 'p|*', '*', 'e[p|a]', 'e[a]', 'p|e Q|f', '*|e:not(Q|f)']
+CORE_SEL = ['p|e', 'Q|f', '*|e', '|e', 'e', '*|e:not(Q|f)']
+OWN = {'p': 'urn:a', 'Q': 'urn:b'}   # the private namespace dict of selectors built detached
+OBJ_SEL = ['p|e', 'Q|f', 'e[p|a]']
 SHEET_TEXTS = [
-    ('@namespace q "urn:a"; @namespace "urn:b"; q|e, f { left: 0 } |g { left: 0 }', {'q': 'urn:a', '': 'urn:b'}, [['q|e', 'f'], ['|g']]),
+    ('@namespace Q "urn:a"; @namespace "urn:b"; Q|e, f { left: 0 } |g { left: 0 }', {'Q': 'urn:a', '': 'urn:b'}, [['Q|e', 'f'], ['|g']]),
     # one URI declared twice: the last declaration wins
-    ('@namespace p "urn:a"; @namespace q "urn:a"; q|e { left: 0 }', {'q': 'urn:a'}, [['q|e']]),
+    ('@namespace p "urn:a"; @namespace Q "urn:a"; Q|e { left: 0 }', {'Q': 'urn:a'}, [['Q|e']]),
 ]
 # a text that is refused in raising mode after an @namespace rule and a namespaced style rule have been read (late @import)
-REFUSED_TEXT = '@namespace q "urn:a"; q|e { left: 0 } @import "late.css";'
+REFUSED_TEXT = '@namespace Q "urn:a"; Q|e { left: 0 } @import "late.css";'
 # extra selector texts used only inside SHEET_TEXTS
-SEL.update({'q|e': [('pre', 'q', 'e')], 'f': [('plain', 'f')], '|g': [('none', 'g')]})
+SEL.update({'Q|e': [('pre', 'Q', 'e')], 'f': [('plain', 'f')], '|g': [('none', 'g')]})
 
 # seeds: (text of sheet A, declarations of A, selector keys per style rule of A (top level, then inside @media), text of B, raising)
 SEEDS = [
     ('', {}, [], '', True),
     ('@namespace p "urn:a"; p|e { left: 0 }', {'p': 'urn:a'}, [['p|e']], '@namespace r "urn:a";', True),
-    ('@namespace "urn:a"; @namespace q "urn:b"; e, q|f { left: 0 } @media print { q|f { top: 0 } }', {'': 'urn:a', 'q': 'urn:b'}, [['e', 'q|f'], ['q|f']],
-     '@namespace q "urn:a";', True),
-    ('/*c*/ @namespace p "urn:a"; @namespace q "urn:b"; p|e q|f { left: 0 } *|e, |e { top: 0 }', {'p': 'urn:a', 'q': 'urn:b'}, [['p|e q|f'], ['*|e', '|e']], '', True),
+    ('@namespace "urn:a"; @namespace Q "urn:b"; e, Q|f { left: 0 } @media print { Q|f { top: 0 } }', {'': 'urn:a', 'Q': 'urn:b'}, [['e', 'Q|f'], ['Q|f']],
+     '@namespace Q "urn:a";', True),
+    ('/*c*/ @namespace p "urn:a"; @namespace Q "urn:b"; p|e Q|f { left: 0 } *|e, |e { top: 0 }', {'p': 'urn:a', 'Q': 'urn:b'}, [['p|e Q|f'], ['*|e', '|e']], '', True),
     ('@namespace p "urn:a"; p|e { left: 0 }', {'p': 'urn:a'}, [['p|e']], '@namespace r "urn:a";', False),
 ]
 
@@ -212,9 +215,12 @@ class Model:
         st.B = p.parseString(tb)
         cssutils.log.raiseExceptions = bool(raising)
         rules = style_rules(st.A)
-        assert len(rules) == len(sels), (ta, len(rules))
-        for r, keys in zip(rules, sels):
-            st.expected[id(r)] = pairset(expect_pairs(k, decl) for k in keys)
+        st.seed_problem = None
+        if len(rules) != len(sels):
+            st.seed_problem = f'seed text {ta!r} has {len(sels)} style rules with declared prefixes, {len(rules)} were read'
+        else:
+            for r, keys in zip(rules, sels):
+                st.expected[id(r)] = pairset(expect_pairs(k, decl) for k in keys)
         st.keep.append(rules)
         return st
 
@@ -253,19 +259,19 @@ class Model:
             out.append(('ns_del', p))
         for i in range(n):
             out.append(('del_rule', i))
-        for key in (list(SEL)[:10] if full else CORE_SEL):
+        for key in (FULL_SEL if full else CORE_SEL):
             out.append(('add_sel', key))
         if full:
             for key in OBJ_SEL:
                 out.append(('add_sel_obj', key))
         first = next((i for i, r in enumerate(A.cssRules) if r.type == r.STYLE_RULE), None)
         if first is not None:
-            for key in (['q|f', 'p|e', 'e', '|e'] if full else ['q|f', 'e']):
+            for key in (['Q|f', 'p|e', 'e', '|e'] if full else ['Q|f', 'e']):
                 out.append(('set_sel', first, key))
-            for key in (['p|e', 'q|f', 'e'] if full else ['q|f']):
+            for key in (['p|e', 'Q|f', 'e'] if full else ['Q|f']):
                 out.append(('append_sel', first, key))
         for j in range(k):
-            for p in (['q', '', 'p'] if full else ['q']):
+            for p in (['Q', '', 'p'] if full else ['Q']):
                 out.append(('rename', j, p))
             if full:
                 out.append(('ns_text', j))
@@ -317,7 +323,7 @@ class Model:
         elif k == 'rename':
             ns_rules(A)[op[1]].prefix = op[2]
         elif k == 'ns_text':
-            ns_rules(A)[op[1]].cssText = '@namespace q "urn:b";'
+            ns_rules(A)[op[1]].cssText = '@namespace Q "urn:b";'
         elif k == 'detach':
             r = A.cssRules[op[1]]
             A.deleteRule(op[1])
@@ -385,6 +391,8 @@ class Model:
             if want is not None:
                 for r in new:
                     st.expected[id(r)] = pairset([want])
+                if not new and note.get('outcome') == 'NamespaceErr':
+                    note['refused_declared'] = f'all prefixes of {op[1]!r} are declared ({sorted((eff or {}).items())}), yet it was refused with NamespaceErr'
             st.keep.append(new)
         elif k == 'add_sel_obj':
             r = note.get('obj')
@@ -401,6 +409,8 @@ class Model:
                 want = None
                 if now != was:
                     bad = f'prefix {u} is not declared, yet selector {op[2]!r} was taken: {r.selectorText!r}'
+            if want is not None and now == was and note.get('outcome') == 'NamespaceErr':
+                note['refused_declared'] = f'all prefixes of {op[2]!r} are declared ({sorted((eff or {}).items())}), yet it was refused with NamespaceErr'
             if want is not None and now != was:
                 if k == 'set_sel':
                     st.expected[id(r)] = pairset([want])
@@ -409,7 +419,7 @@ class Model:
         elif k == 'sheet_text_refused' and any(id(r) not in pre['ids'] for r in style_rules(A)):
             rules = [r for r in style_rules(A) if id(r) not in pre['ids']]
             for r in rules:
-                st.expected[id(r)] = pairset([expect_pairs('q|e', {'q': 'urn:a'})])
+                st.expected[id(r)] = pairset([expect_pairs('Q|e', {'Q': 'urn:a'})])
             st.keep.append(rules)
         elif k == 'sheet_text' and any(id(r) not in pre['ids'] for r in style_rules(A)):
             text, decl, sels = SHEET_TEXTS[op[1]]
@@ -461,9 +471,14 @@ class Model:
         st.keep.append(pre['keep'])
 
     def step(self, st, op):
+        if getattr(st, 'seed_problem', None):
+            st.broken = True
+            return 'seed', [{'clause': 'a selector whose prefixes are declared resolves to the declared pairs', 'detail': st.seed_problem, 'key': 'seed', 'model': 'C15.' + self.pool,
+                             'known_id': None}]
         pre = self._pre(st)
         note = {}
         outcome = self._guarded(st, op, note)
+        note['outcome'] = outcome
         bad = self._write_oracle(st, op, note, pre)
         st.keep.append(pre['keep'])
         fails = []
@@ -486,6 +501,8 @@ class Model:
             if op[1] in d and d[op[1]] in pre['usedA'] and [u for _, u in pre['nsA']].count(d[op[1]]) == 1:
                 fail('removing a namespace still used by a selector is rejected', f"sheet A: del namespaces[{op[1]!r}] ({d[op[1]]!r}, used) was accepted; rule kinds before {pre['kinds']}, "
                      f"after {[r.typeString for r in st.A.cssRules]}", breaks=False, sheet='A', delreq=True)
+        if note.get('refused_declared') and pre['nsclass'] == '_Namespaces':
+            fail('a selector whose prefixes are declared resolves to the declared pairs', note['refused_declared'], breaks=False, sheet='A')
         if note.get('lastwins'):
             fail('the last declaration of a URI wins', note['lastwins'], sheet='A')
         import cssutils
@@ -809,7 +826,7 @@ def known_witnesses(ctx):
 def sequences(ctx):
     from bounded import histories
     S = SEEDS
-    sample = [{'seed': S[1][0], 'ops': [['ns_set', 'q', 'urn:a'], ['add_sel', 'q|f'], ['ns_del', 'q']]}]
+    sample = [{'seed': S[1][0], 'ops': [['ns_set', 'Q', 'urn:a'], ['add_sel', 'Q|f'], ['ns_del', 'Q']]}]
     if ctx.tier == 'quick':
         histories.explore(ctx, 'bounded.c15', 'full', [S[0], S[1]], 3, label='C15 full pool of namespace operations, sequences <= 3 (empty sheet; one prefix, one namespaced rule)',
                           samples=sample)
